@@ -33,6 +33,8 @@ SPEC = {
 }
 SPEC['explanation'] += ' T11.heap: the heap backend hooks change the list only through heapq. T9.scan: the sub-list index returned by BarrelList._translate_index is the one its scan stopped at (never a literal). T9.rmsub: a sub-list is dropped from `lists` only after that very sub-list was seen empty.'
 SPEC['decided'] += ['heap changed only through heapq', 'sub-list index comes from the scan', 'dropped sub-list is the emptied one']
+SPEC['explanation'] += ' T11.pq also rejects replacing the entry list wholesale outside __init__ (a filtered copy of a heap is not a heap).'
+SPEC['decided'] += ['entry list never replaced outside __init__']
 MANIFEST = {
     'technique': 'must-pass-through and pairing analysis over all CFG paths (receiver-sensitive), layout agreement, who-may-write',
     'text': ('Decides structural necessary conditions of C10 on all paths: FIFO tie-breaking material (fresh monotone count on '
